@@ -7,12 +7,15 @@
 (* of C20 hold on every complete run, and the machine's runs are exactly    *)
 (* those of the closed form from which Gen_DeliveryRetry prints the         *)
 (* expectations.  MC_DeliveryRetry_seed.cfg (TimeoutRecoverable = FALSE)    *)
-(* must be REJECTED by InvClauses: the clauses have teeth.                  *)
+(* must be REJECTED by InvClauses: the clauses have teeth; the same for     *)
+(* MC_DeliveryRetry_flat.cfg (BackoffGrows = FALSE).                        *)
 EXTENDS DeliveryRetry, TLC, Json
 
 CONSTANTS MaxLenWebhook, MaxLenPagerduty,  \* longest script per notifier type
           Deadlines,                       \* flush deadlines without cancellation
-          CancelDeadline, Cancels          \* reload cancels at c (in Cancels) a flush whose deadline is CancelDeadline
+          CancelDeadline, Cancels,         \* reload cancels at c (in Cancels) a flush whose deadline is CancelDeadline
+          LongDeadlines, LongLen           \* long flushes: scripts of <= LongLen outcomes that all fail recoverably
+                                           \* (the last one repeating): five and more consecutive failures
 
 EndsU == {[dl |-> d, cancel |-> 0] : d \in Deadlines} \cup {[dl |-> CancelDeadline, cancel |-> x] : x \in Cancels}
 
@@ -24,7 +27,9 @@ ScriptsOf(nt, to, n) == {pre \o <<o>> : pre \in SeqsUpTo(Going(nt, to), n - 1), 
 MaxLenOf(nt) == IF nt = "webhook" THEN MaxLenWebhook ELSE MaxLenPagerduty
 ParamsOf(nt) == UNION {{[nt |-> nt, script |-> s, to |-> to, dl |-> e.dl, cancel |-> e.cancel] :
                           s \in ScriptsOf(nt, to, MaxLenOf(nt)), e \in EndsU} : to \in BOOLEAN}
-Params == UNION {ParamsOf(nt) : nt \in NotifierTypes}
+LongOf(nt) == UNION {{[nt |-> nt, script |-> s, to |-> to, dl |-> d, cancel |-> 0] :
+                        s \in SeqsUpTo(Going(nt, to), LongLen) \ {<< >>}, d \in LongDeadlines} : to \in BOOLEAN}
+Params == UNION {ParamsOf(nt) \cup LongOf(nt) : nt \in NotifierTypes}
 
 Init == InitWith(Params)
 Spec == Init /\ [][Next]_vars
@@ -53,7 +58,7 @@ ExpOf(q) ==
    nruns  |-> Cardinality(R)]
 CaseOf(q) == [k |-> "retry", nt |-> q.nt, script |-> q.script, to |-> q.to, dl |-> q.dl, cancel |-> q.cancel,
               timeout |-> Timeout, slow |-> SlowDelay, hang |-> HangDelay,
-              hi |-> GapHi, lo |-> GapLo,
+              hi |-> GapHi, lo |-> GapLo, lofrom |-> JudgedLoFrom,
               sclass |-> [w \in Whys |-> SClass(w)],          \* classes by the statement ..
               iclass |-> [w \in Whys |-> IClass(q.nt, w)],    \* .. and by this notifier's code
               exp |-> ExpOf(q)]
